@@ -25,6 +25,18 @@ import (
 
 func init() {
 	families["C02"] = append(families["C02"], lockFamily)
+	// a lock taken twice is a render that never returns (C05: "fails to terminate")
+	families["C05"] = append(families["C05"], func(w *World, _ string) ([]*Obligation, []string) {
+		obls, _ := lockFamily(w, "C02")
+		var out []*Obligation
+		for _, o := range obls {
+			if o.Kind == "relock" {
+				o.Props = []string{"C05"}
+				out = append(out, o)
+			}
+		}
+		return out, []string{fmt.Sprintf("lock acquisitions checked against re-entry: %d", len(out))}
+	})
 	// what goes back to a pool, and when, also decides whether a later render can see an earlier
 	// one (C01): the release-order obligations are claimed there as well
 	families["C01"] = append(families["C01"], func(w *World, prop string) ([]*Obligation, []string) {
@@ -172,6 +184,16 @@ func lockFamily(w *World, prop string) ([]*Obligation, []string) {
 			m := fx.term(args[0])
 			cur := lockState(fx)
 			var nv string
+			// sync's mutexes are not re-entrant: taking a lock this activation (or, in a function
+			// entered with the lock held, its caller) already holds blocks forever
+			switch op {
+			case "lock":
+				o := fx.oblige("relock", "(= (select "+cur+" "+m+") 0)", call, "the mutex is not already held when it is locked (sync.Mutex and sync.RWMutex are not re-entrant: the goroutine would block forever)")
+				o.Props = []string{"C02", "C05"}
+			case "rlock":
+				o := fx.oblige("relock", "(distinct (select "+cur+" "+m+") 2)", call, "the mutex is not held for writing when it is locked for reading (the goroutine would block forever)")
+				o.Props = []string{"C02", "C05"}
+			}
 			switch op {
 			case "rlock":
 				nv = "1"
@@ -236,7 +258,7 @@ func lockFamily(w *World, prop string) ([]*Obligation, []string) {
 			continue
 		}
 		for _, o := range obls {
-			if o.Kind == "guarded" || o.Kind == "immutable" || o.Kind == "shared" {
+			if o.Kind == "guarded" || o.Kind == "relock" || o.Kind == "immutable" || o.Kind == "shared" {
 				out = append(out, o)
 			}
 		}
